@@ -454,6 +454,16 @@ func (v *vc) enterLoop(fr *frame, st *state, li *loopInfo, hdrEntry map[*ssa.Bas
 	for _, ai := range v.loopAutoInv(fr, n, h, func(phi *ssa.Phi) string { return fr.vals[phi] }) {
 		v.fact(n, ai.term)
 	}
+	if fr.top && !mod.all {
+		for _, hname := range sortedKeys(mod.heaps) {
+			if f := v.frameFormula(fr, st, hname); f != "" {
+				v.oblige(st, "inv-init", "auto-frame "+hname, site, f, nil)
+			}
+			if f := v.frameFormula(fr, n, hname); f != "" {
+				v.fact(n, f)
+			}
+		}
+	}
 	if ls != nil {
 		henv := v.phiEnv(fr, h, func(phi *ssa.Phi) string { return fr.vals[phi] })
 		for _, c := range ls.invariants {
@@ -489,6 +499,15 @@ func (v *vc) checkBackEdge(fr *frame, st *state, from *ssa.BasicBlock, li *loopI
 	}
 	for _, ai := range v.loopAutoInv(fr, st, h, pick) {
 		v.oblige(st, "inv-keep", ai.label, site, ai.term, nil)
+	}
+	if fr.top {
+		if mod := v.loopModSet(fr, li); !mod.all {
+			for _, hname := range sortedKeys(mod.heaps) {
+				if f := v.frameFormula(fr, st, hname); f != "" {
+					v.oblige(st, "inv-keep", "auto-frame "+hname, site, f, nil)
+				}
+			}
+		}
 	}
 	if ls == nil {
 		return
